@@ -76,6 +76,25 @@ NEEDS = {
  'C12f': 'a decimal literal with a leading zero followed by a non-zero digit',
  'C18e': 'an array literal mixing int constants and bytes, under certain PYTHONHASHSEEDs',
  'C18f': '-m24/40/48/56 and an index >= 1 into an int[] or string[]',
+ # fourth round (all properties; asked for narrow feature combinations)
+ 'C01g': 'a non-const array literal with constant elements evaluated more than once and written through (hoisted to static data)',
+ 'C02g': 'a preempt inside a (recursive) defeat function under try/stop with unavoidable defeat (forcing check dropped)',
+ 'C03g': 'a defeat function generated before the first try/stop and later called under one (generation-order dependent)',
+ 'C04g': '`buf[g] = f()` on a byte[] indexed by a bare mutable global that f changes (index re-read after the check)',
+ 'C05g': '-m24 and wider: an int/string VLA length whose byte size wraps to a small number',
+ 'C06g': 'a global initialiser or global array length that names another global',
+ 'C07g': 'no exact overload match, two viable overloads, caller declared between them (or inside the second)',
+ 'C08g': 'defeat raised in a called defeat function owning dynamic arrays, caught by stop (ap loaded through the callee fp)',
+ 'C09g': '`x is byte` as a branch condition with x a non-zero multiple of 256',
+ 'C10g': 'a CodeGenError from a global (e.g. `int n = s.length;`, oversized global array) now raised lazily inside gen_lines',
+ 'C11g': '`not E is T` (unary not directly followed by an is-cast)',
+ 'C12g': 'a decimal literal with a leading zero (007, 0_7, 0123)',
+ 'C13g': 'a byte 0x00-0x0f followed by a hex digit character in a string/char constant (one-digit \\x escapes)',
+ 'C14g': '`E and false` / `E or true` with a run-time E that has output or faults',
+ 'C15g': '--unchecked: a preempt inside a defeat function called under try/stop whose defeat is real',
+ 'C16g': 'try/undo|stop whose body is `return !f(x);` (defeat only inside an expression) and a handler that completes',
+ 'C17g': 'write(string) of an empty/exhausted string on a speculative path that ends in halt (loop-head guard removed)',
+ 'C18g': 'an array literal mixing an int literal and a byte variable used for indexing / overload choice, under some PYTHONHASHSEEDs',
 }
 ALSO = {'C01d': ['C18'], 'C04c': ['C01'], 'C04d': ['C13'], 'C14c': [], 'C13c': ['C10'], 'C16d': ['C03'], 'C17d': ['C01'], 'C09c': ['C02'], 'C09d': ['C01'], 'C18b': ['C01'], 'C17': ['C04'], 'C15': ['C02'], 'C09b': ['C14'], 'C07b': [], 'C16': ['C03']}
 
